@@ -58,6 +58,8 @@ fn process_polygon<F>(
 {
     for line in contour_or_hole.lines() {
         if line.start == line.end {
+            #[cfg(feature = "verif-hooks")]
+            crate::verif_hooks::path(11);
             continue; // skip collapsed edges
         }
 
